@@ -12,8 +12,9 @@
 (*   prefs     sequence of preference lists (sequences of engine ids) the  *)
 (*             driver installed with factory.preference_list = ...         *)
 (*   qm        ids of the features of the QUALITY_METRICS group             *)
-(*   rk        rows [e, ck, in, out |-> [k, f, x]]: what the real           *)
-(*             resulting_problem_kind of engine e returned for kind `in`   *)
+(*   rk        groups [e, ck, rows]: rows[j] = [in, out |-> [k, f, x]] is    *)
+(*             what the real resulting_problem_kind of engine e returned   *)
+(*             (out.k = "kind") or raised (out.k = "exc") for kind `in`    *)
 (*   reqs      sequence of requests                                        *)
 (*             [mode, f, ck, pk, og, ag, cks, call, p, obs, all]           *)
 (*             p    index into prefs                                       *)
@@ -40,9 +41,12 @@ EngRec(e) == [modes |-> Range(e.modes), feats |-> Range(e.feats), plans |-> Rang
 \* per batch: the registry, the resulting-kind table and the preference lists in Factory's shapes.
 \* (Constant-level definitions, evaluated once: the bound names must differ from the variables.)
 Regs == TLCEval([bb \in DOMAIN Batches |-> [e \in DOMAIN Batches[bb].engines |-> EngRec(Batches[bb].engines[e])]])
-RKs == TLCEval([bb \in DOMAIN Batches |->
-                  {[e |-> w.e, ck |-> w.ck, in |-> Range(w.in), out |-> [k |-> w.out.k, f |-> Range(w.out.f), x |-> w.out.x]] :
-                     w \in Range(Batches[bb].rk)}])
+RKOf(groups) == [kk \in {<<groups[j].e, groups[j].ck>> : j \in DOMAIN groups} |->
+                   LET g == groups[CHOOSE j \in DOMAIN groups : <<groups[j].e, groups[j].ck>> = kk]
+                   IN [j \in DOMAIN g.rows |->
+                         [in |-> Range(g.rows[j].in),
+                          out |-> [k |-> g.rows[j].out.k, f |-> Range(g.rows[j].out.f), x |-> g.rows[j].out.x]]]]
+RKs == TLCEval([bb \in DOMAIN Batches |-> RKOf(Batches[bb].rk)])
 Prefs == TLCEval([bb \in DOMAIN Batches |-> Batches[bb].prefs])
 
 VARIABLES b, i
